@@ -8,6 +8,8 @@ CONSTANTS
   InMenu = {1, 4}
   Trips = {2}
   Kinds = {"if", "loop"}
+  FnMenu = {1, 2, 3, 4}
+  LitOnly = FALSE
   Sim = FALSE
 INVARIANT DesignOK
 INVARIANT ImplIsDesign
